@@ -45,10 +45,6 @@ TAGS = {
     21: 'several logical IFs with overlapping conditions: last match wins instead of first',
     22: 'several logical IFs: a later condition reads the symbol an earlier IF assigned',
     23: 'dropped (0, True) piece although the variable is not zero at this point',
-    24: 'And/Or with more than two arguments: only two are printed',
-    25: 'Or under And printed without parentheses',
-    26: 'two-argument function printed with one argument',
-    27: '1/f(x) raises AttributeError in _print_Pow',
     31: '$PK/$PRED code differs from the statements before the ODE system',
     32: 'ADVAN/TRANS (or K parameters) denote a different compartmental system',
     33: '$DES differs from the differential equations of the model',
@@ -56,7 +52,6 @@ TAGS = {
     35: '$ERROR code differs from the statements after the ODE system',
     36: 'S/F/ALAG/R/D/A index is not the NM compartment number',
     28: 'a PK parameter the ADVAN/TRANS requires is never assigned in $PK',
-    29: 'F is scaled by S<k> of another compartment than the one it reads ($MODEL-defined model)',
     43: 're-read model: F differs',
     48: 'the CMT value of dose records is not the number of the dosing compartment',
     49: 'dose records carry the CMT of the central compartment although the model doses another compartment',
@@ -71,8 +66,9 @@ TAGS = {
 }
 CORR = {1, 2, 4, 5, 6, 7}
 ORACLE = {11, 12, 13, 14, 15, 16, 19, 17, 18, 31, 32, 33, 34, 35, 36, 37, 38, 39, 40, 41, 42, 43, 48}
-KNOWN_CLASS = {49: 'C02-CMT-DOSE-REMAP', 21: 'C02-PW-OVERLAP', 22: 'C02-PW-SELFREF', 23: 'C02-PW-ZERO-ELSE', 24: 'C02-COND-NARY',
-               25: 'C02-COND-PREC', 26: 'C02-PRINT-FN2', 27: 'C02-PRINT-INVFN'}
+KNOWN_CLASS = {49: 'C02-CMT-DOSE-REMAP', 21: 'C02-PW-OVERLAP', 22: 'C02-PW-SELFREF', 23: 'C02-PW-ZERO-ELSE'}
+# fixed in /repo (5cd6b91, 08b5390, 09fcba7, 4524793): C02-COND-NARY, C02-COND-PREC, C02-PRINT-FN2, C02-PRINT-INVFN,
+# C02-DES-SCALE-STALE have no class tag any more -- a recurrence shows as oracle tags 17 / 14 / 34,36,43 = VIOLATION
 
 
 # =================================================================== stream 1: lcs.diff
@@ -174,8 +170,10 @@ def gen_print(rng):
                 c = f'Eq({pivot}, {consts[i % len(consts)]})'
             else:
                 c = rrel(rng, csyms)
-                if rng.random() < 0.15:
+                if rng.random() < 0.2:
                     c = f'{rng.choice(["And", "Or"])}({c}, {rrel(rng, csyms)})'
+                    if rng.random() < 0.4:
+                        c = f'{rng.choice(["And", "Or"])}({c}, {rrel(rng, csyms)}, {rrel(rng, csyms)})'
             pieces.append(f'({v}, {c})')
         els = rng.choice(['none', 'none', 'self', 'zero', 'zero', 'const', 'expr'])
         if els == 'self':
@@ -226,10 +224,6 @@ def observe_print(spec, printer=None, perturb=None):
     if printer is None:
         from pharmpy.model.external.nonmem.records.code_record import nmtran_assignment_string as printer
     se = sympy.sympify(spec['expr'])
-    if isinstance(se, sympy.Piecewise):
-        for _, c in se.args:
-            if not _arity_ok(c):
-                raise sc.Unconvertible('condition shape reserved for stream cond')
     if se.has(sympy.zoo, sympy.nan, sympy.oo, sympy.I):
         raise sc.Unconvertible('non-finite')
     a = Assignment.create(Expr.symbol(spec['lhs']), Expr(se))
@@ -445,15 +439,6 @@ def classify(ctx, spec, tags, info):
     for t in sorted((tags & ORACLE) - excused):
         ctx.violation(TAGS[t], {'spec': spec, 'tags': sorted(tags), 'tag_meaning': TAGS[t], 'info': _slim(info)})
         status = 'violation'
-    # A listed defect was repaired in /repo but the faithful model still mirrors it: the implementation is
-    # right by the specification (no oracle tag) exactly where the model's guard is false -> not an alarm.
-    stale = ((2 in tags and 207 in tags) or (4 in tags and (205 in tags or 206 in tags)))
-    if stale and status == 'ok' and not (tags & (CORR - {2, 4})):
-        ctx.coverage['model_stale_after_fix'] = ctx.coverage.get('model_stale_after_fix', 0) + 1
-        if 'model_stale_after_fix' not in ' '.join(ctx.notes):
-            ctx.notes.append('model_stale_after_fix: the implementation now satisfies the specification on guard-false inputs '
-                             '(g_binary / g_prec / g_printable) where the model reproduces the former defect')
-        return 'ok'
     if (tags & CORR) and status != 'violation':
         ctx.broken.append('correspondence C02 model vs implementation: ' + ', '.join(TAGS[t] for t in sorted(tags & CORR))
                           + ' on ' + json.dumps(spec)[:600])
@@ -505,7 +490,7 @@ from harness.props.c02_hist import CodeUnreadable, SkipCase   # noqa: E402
 
 HSTREAM = (hist.observe_hist, 'hcase', 'verdict_hist', 6)
 # explanation tag -> (finding id, oracle tags it explains)
-HIST_CLASS = {28: ('C02-TRANS1-MISSING-K', {32, 38}), 29: ('C02-DES-SCALE-STALE', {34, 36, 43}),
+HIST_CLASS = {28: ('C02-TRANS1-MISSING-K', {32, 38}),
               30: ('C02-SOLVER-NO-DES', {33, 40}),
               44: ('C02-TRANS-NOT-WRITTEN', {32, 38}),
               47: ('C02-RATIO-NAME-TAKEN', {32, 38}),
@@ -545,6 +530,11 @@ def hist_counts(verdicts, lo, hi):
 
 
 def run(ctx):
+    # entries staged in known_findings.d replace the merged ones with the same id (later wins)
+    byid = {}
+    for f in ctx.findings:
+        byid[f['id']] = f
+    ctx.findings = list(byid.values())
     ok = ctx.build_gate(['C02'])
     ctx.trusted += [
         'harness/props/c02_nm.py: reference reader of NM-TRAN abbreviated code (tokeniser, Fortran precedence, IF blocks, '
@@ -601,7 +591,7 @@ def run(ctx):
         elif kind == 'print':
             distinct |= {s['expr'] + '|' + ','.join(s['defined']) for s, i in zip(kept, infos) if i['is_pw']}
             dist['print'] = {'cases': len(kept), 'forms(300 plain,301 one IF,302 several IFs,303 block,304 none)': hist_counts(verdicts, 300, 310),
-                             'guard_false(201 disjoint,202 self_free,203 zero_fresh,207 printable)': hist_counts(verdicts, 200, 210),
+                             'guard_false(201 disjoint,202 self_free,203 zero_fresh)': hist_counts(verdicts, 200, 210),
                              'printer_exceptions': _hist([i['exc'] for i in infos if i['exc']]),
                              'inconclusive': hist_counts(verdicts, 1000, 2000)}
         elif kind == 'isd':
@@ -614,7 +604,7 @@ def run(ctx):
                              'n_old_hist': _hist([i['n_old'] for i in infos])}
         else:
             distinct |= {s['cond'] for s in kept}
-            dist['cond'] = {'cases': len(kept), 'guard_false(205 binary,206 prec)': hist_counts(verdicts, 200, 210),
+            dist['cond'] = {'cases': len(kept), 'shape(205 some And/Or with > 2 args,206 some Or under And,210 literal True/False)': hist_counts(verdicts, 200, 210),
                             'inconclusive': hist_counts(verdicts, 1000, 2000)}
         samples += [{'spec': s, 'tags': v} for s, v in list(zip(kept, verdicts))[:2]]
     run_histories(ctx, regspecs, dist, samples)
@@ -660,7 +650,7 @@ def run_histories(ctx, regspecs, dist, samples):
         'ncomp_hist': _hist([i['ncomp'] for i in infos]),
         'steps_applied': dict(sorted(steps_ok.items())), 'steps_refused': dict(sorted(steps_failed.items())),
         'with_des': sum(1 for i in infos if i['n_des']), 'reread_failed': sum(1 for i in infos if 'reread_exc' in i),
-        'explained(28 missing K,29 stale S,30 no $DES)': hist_counts(verdicts, 28, 31), 'explained(44 trans not written,46 ratio denom one)': hist_counts(verdicts, 44, 48),
+        'explained(28 missing K,30 no $DES)': hist_counts(verdicts, 28, 31), 'explained(44 trans not written,46 ratio denom one)': hist_counts(verdicts, 44, 48),
         'inconclusive': hist_counts(verdicts, 1000, 2000),
     }
     samples += [{'spec': s, 'tags': v, 'applied': i['applied'], 'advan': i['advan']} for s, v, i in list(zip(kept, verdicts, infos))[:3]]
